@@ -56,8 +56,15 @@ pub const MUTATORS: &[(&str, Rule)] = &[
     ("n-reorder-selections", n_reorder_selections),
 ];
 
-/// Apply one mutator chosen by `c`; if it finds no site, the following ones are tried in order.
+/// Apply one mutator chosen by `c`; a mutator that finds no site is replaced by another random
+/// choice (a few times), then by the following ones in order.
 pub fn mutate(c: &mut Choices, doc: &mut Document, s: &RefSchema) -> Option<&'static str> {
+    for _ in 0..6 {
+        let (name, rule) = MUTATORS[c.choose(MUTATORS.len())];
+        if mutate_with(c, doc, s, rule) {
+            return Some(name);
+        }
+    }
     let start = c.choose(MUTATORS.len());
     for k in 0..MUTATORS.len() {
         let (name, rule) = MUTATORS[(start + k) % MUTATORS.len()];
